@@ -69,7 +69,6 @@ FD_STEP = 1e-7
 EPS = float(np.finfo(float).eps)
 
 # ledger predicates (classes excluded while an open entry names them)
-K_P1 = "normalize_grad_rounds_integer_columns"
 K_ROUND_KEY = "unnormalized_rounding_keys_unrounded_point"
 K_SPARSE_NAN = "sparse_jacobian_unnormalized_database_isnan"
 K_CENTERED_EQUAL = "centered_differences_equal_bounds_nan"
@@ -270,16 +269,12 @@ def _case_history(p, ctx):
         return False
 
     def compare_columns(poly, exp_ret):
-        """Columns of the Jacobians that are compared (all, unless the P1 finding is open)."""
-        cols = np.ones(dim, dtype=bool)
+        """Columns of the Jacobians that are compared: all (classification of the former defect P1 only)."""
         if cfg["norm"] and space.has_integer:
             int_cols = space.is_int
-            nonintegral = bool(np.any(exp_ret[:, int_cols] != np.round(exp_ret[:, int_cols])))
-            if nonintegral:
+            if bool(np.any(exp_ret[:, int_cols] != np.round(exp_ret[:, int_cols]))):
                 ctx.cls("class_nonintegral_derivative_wrt_integer_component_normalised")
-                if ctx.known(K_P1):
-                    cols = ~int_cols
-        return cols
+        return np.ones(dim, dtype=bool)
 
     def check_calls(poly, kind, phys, new, hit):
         if model.fast_linear(poly):
@@ -394,63 +389,62 @@ def _case_history(p, ctx):
                               f"{name} recorded at {rec['key'].tolist()!r} is {arr.tolist()!r}, the value returned was {exp.tolist()!r}")
 
     # ----- the history
-    if True:
-        for r in p["requests"]:
-            xn, x = pts[r["pt"] % len(pts)]
-            if r["op"] in ("evaluate", "jac"):
-                i = r["fn"] % n_fn
-                kind = "f" if r["op"] == "evaluate" else "j"
-                if excluded(polys[i], kind):
-                    stats["skipped"] += 1
-                    continue
-                fn_input = (xn if cfg["norm"] else x).copy()
-                before = len(polys[i].log)
-                others = [len(q.log) for q in polys]
-                if kind == "f":
-                    got = fns[i].evaluate(fn_input.copy())
-                    after_value(i, fn_input, got, polys[i].log[before:])
-                else:
-                    got = fns[i].jac(fn_input.copy())
-                    after_jac(i, fn_input, got, polys[i].log[before:])
-                for j, q in enumerate(polys):
-                    ctx.check(j == i or len(q.log) == others[j], "calls", f"a request on {polys[i].name} called the callables of {q.name}")
-                ctx.cls("request_" + r["op"])
+    for r in p["requests"]:
+        xn, x = pts[r["pt"] % len(pts)]
+        if r["op"] in ("evaluate", "jac"):
+            i = r["fn"] % n_fn
+            kind = "f" if r["op"] == "evaluate" else "j"
+            if excluded(polys[i], kind):
+                stats["skipped"] += 1
+                continue
+            fn_input = (xn if cfg["norm"] else x).copy()
+            before = len(polys[i].log)
+            others = [len(q.log) for q in polys]
+            if kind == "f":
+                got = fns[i].evaluate(fn_input.copy())
+                after_value(i, fn_input, got, polys[i].log[before:])
             else:
-                as_norm = bool(r["as_norm"]) and not (odd_dtype and not cfg["norm"])
-                sel = list(range(n_fn)) if r["all"] else sorted({r["fn"] % n_fn, (r["fn"] // 2) % n_fn})
-                want_out = r["want"] in ("out", "both")
-                want_jac = r["want"] in ("jac", "both")
-                if want_jac and any(excluded(polys[i], "j") for i in sel):
-                    stats["skipped"] += 1
-                    continue
-                vector = (xn if as_norm else x).copy()
-                fn_list = () if r["all"] else [fns[i] for i in sel]
-                fn_input = model.fn_input_from_vector(vector, as_norm)
-                before = [len(q.log) for q in polys]
-                outs, jacs = problem.evaluate_functions(
-                    vector.copy(), design_vector_is_normalized=as_norm,
-                    output_functions=fn_list if want_out else None, jacobian_functions=fn_list if want_jac else None,
-                )
-                names = [polys[i].name for i in sel]
-                ctx.check(list(outs) == (names if want_out else []), "evaluate_functions", f"outputs returned for {list(outs)}, requested {names if want_out else []}")
-                ctx.check(list(jacs) == (names if want_jac else []), "evaluate_functions", f"Jacobians returned for {list(jacs)}, requested {names if want_jac else []}")
-                # the model replays the documented order: all outputs, then all Jacobians
-                new = {i: polys[i].log[before[i]:] for i in sel}
-                used = dict.fromkeys(sel, 0)
-                if want_out:
-                    for i in sel:
-                        n_val = _n_value_calls(model, polys[i], fn_input) if want_jac else len(new[i])
-                        after_value(i, fn_input, outs[polys[i].name], new[i][:n_val])
-                        used[i] = n_val
-                if want_jac:
-                    for i in sel:
-                        after_jac(i, fn_input, jacs[polys[i].name], new[i][used[i]:])
-                for j, q in enumerate(polys):
-                    ctx.check(j in sel or len(q.log) == before[j], "calls", f"evaluate_functions on {names} called the callables of {q.name}")
-                ctx.cls("request_evaluate_functions_" + ("normalised" if as_norm else "physical") + "_vector")
-                if as_norm != bool(cfg["norm"]) and want_jac:
-                    ctx.cls("evaluate_functions_jacobian_in_other_coordinates_than_the_vector")
-            check_database()
+                got = fns[i].jac(fn_input.copy())
+                after_jac(i, fn_input, got, polys[i].log[before:])
+            for j, q in enumerate(polys):
+                ctx.check(j == i or len(q.log) == others[j], "calls", f"a request on {polys[i].name} called the callables of {q.name}")
+            ctx.cls("request_" + r["op"])
+        else:
+            as_norm = bool(r["as_norm"]) and not (odd_dtype and not cfg["norm"])
+            sel = list(range(n_fn)) if r["all"] else sorted({r["fn"] % n_fn, (r["fn"] // 2) % n_fn})
+            want_out = r["want"] in ("out", "both")
+            want_jac = r["want"] in ("jac", "both")
+            if want_jac and any(excluded(polys[i], "j") for i in sel):
+                stats["skipped"] += 1
+                continue
+            vector = (xn if as_norm else x).copy()
+            fn_list = () if r["all"] else [fns[i] for i in sel]
+            fn_input = model.fn_input_from_vector(vector, as_norm)
+            before = [len(q.log) for q in polys]
+            outs, jacs = problem.evaluate_functions(
+                vector.copy(), design_vector_is_normalized=as_norm,
+                output_functions=fn_list if want_out else None, jacobian_functions=fn_list if want_jac else None,
+            )
+            names = [polys[i].name for i in sel]
+            ctx.check(list(outs) == (names if want_out else []), "evaluate_functions", f"outputs returned for {list(outs)}, requested {names if want_out else []}")
+            ctx.check(list(jacs) == (names if want_jac else []), "evaluate_functions", f"Jacobians returned for {list(jacs)}, requested {names if want_jac else []}")
+            # the model replays the documented order: all outputs, then all Jacobians
+            new = {i: polys[i].log[before[i]:] for i in sel}
+            used = dict.fromkeys(sel, 0)
+            if want_out:
+                for i in sel:
+                    n_val = _n_value_calls(model, polys[i], fn_input) if want_jac else len(new[i])
+                    after_value(i, fn_input, outs[polys[i].name], new[i][:n_val])
+                    used[i] = n_val
+            if want_jac:
+                for i in sel:
+                    after_jac(i, fn_input, jacs[polys[i].name], new[i][used[i]:])
+            for j, q in enumerate(polys):
+                ctx.check(j in sel or len(q.log) == before[j], "calls", f"evaluate_functions on {names} called the callables of {q.name}")
+            ctx.cls("request_evaluate_functions_" + ("normalised" if as_norm else "physical") + "_vector")
+            if as_norm != bool(cfg["norm"]) and want_jac:
+                ctx.cls("evaluate_functions_jacobian_in_other_coordinates_than_the_vector")
+        check_database()
 
     # ----- classification
     rescaled = bool(cfg["norm"] and space.rescaled.any())
@@ -504,4 +498,4 @@ ORACLES = {"history": case_history}
 
 
 def run(ctx):
-    ctx.drive("history", histories(), case_history, quick=450, thorough=5000)
+    ctx.drive("history", histories(), case_history, quick=1500, thorough=12000)
